@@ -459,6 +459,12 @@ class FunctionNormalizer:
 
         ok = [True]
 
+        # arithmetic with a numeric literal / a comparison: the value is a number or a truth value, not a container that could be
+        # shared and mutated
+        scalar_like = isinstance(v, (ast.BinOp, ast.Compare)) and any(
+            isinstance(n, ast.Constant) and isinstance(n.value, (int, float)) and not isinstance(n.value, bool) for n in ast.walk(v)) and not any(
+            isinstance(n, (ast.Subscript, ast.Attribute)) for n in ast.walk(v))
+
         def read_only(node, u) -> bool:
             """A COMPUTED value (not an alias of an existing object) may be re-computed at a use only if that use merely reads it:
             a store into it, a method call on it or handing it to arbitrary code would act on a fresh object each time."""
@@ -484,9 +490,11 @@ class FunctionNormalizer:
                 gp = path[-3] if len(path) >= 3 else None
                 return isinstance(par.ctx, ast.Load) and not (isinstance(gp, ast.Call) and gp.func is par)
             if isinstance(par, ast.Call):
-                return isinstance(par.func, ast.Name) and par.func.id in _PURE_BUILTINS and par.func is not u
+                if isinstance(par.func, ast.Name) and par.func.id in _PURE_BUILTINS and par.func is not u:
+                    return True
+                return scalar_like and par.func is not u
             if isinstance(par, (ast.Tuple, ast.List, ast.Set, ast.Dict, ast.Slice, ast.keyword)):
-                return False
+                return scalar_like   # `n + 1` inside a shape tuple or as an argument: a number, re-computable anywhere
             return False
 
         def expr(node, live) -> bool:
